@@ -657,10 +657,17 @@ ActOut(a) == IF a.a = "Par" THEN [a |-> a.a, e |-> a.e, m |-> a.m, id |-> a.id, 
 Step == IF EmitMode = "edge"
         THEN [a |-> ActOut(lastAct'), p |-> [e \in Endpoints |-> Pend(E'[e])]]
         ELSE [a |-> ActOut(lastAct'), x |-> [e \in Endpoints |-> Expect(E'[e])], n |-> [e \in Endpoints |-> Len(net'[e])]]
+\* the pair at rest: nothing in flight, no delayed goroutine pending, no timer armed, closes propagated
+Quiescent == /\ \A e \in Endpoints : Alive(E[e]) => (net[e] = <<>> \/ ~E[e].wsOpen)
+             /\ \A e \in Endpoints : E[e].pending = <<>> /\ ~E[e].tRun
+             /\ \A e \in Endpoints : E[e].ran
+             /\ \A e \in Endpoints : E[e].wsOpen \/ EosSent(e) \/ ~E[Peer(e)].wsOpen
+\* q: the state the behaviour ends in is a point of rest of the pair (only there JudgePair applies)
 Last == IF lastAct'.a = "Par"
         THEN [x |-> [e \in Endpoints |-> Expect(E'[e])], n |-> [e \in Endpoints |-> Len(net'[e])],
-              alt |-> [e \in Endpoints |-> Expect(IF e = lastAct'.e THEN ParAlt ELSE E'[e])]]
-        ELSE [x |-> [e \in Endpoints |-> Expect(E'[e])], n |-> [e \in Endpoints |-> Len(net'[e])]]
+              alt |-> [e \in Endpoints |-> Expect(IF e = lastAct'.e THEN ParAlt ELSE E'[e])], q |-> FALSE]
+        ELSE [x |-> [e \in Endpoints |-> Expect(E'[e])], n |-> [e \in Endpoints |-> Len(net'[e])],
+              q |-> IF Pair THEN Quiescent' ELSE FALSE]
 
 Init == /\ E = [e \in Endpoints |-> InitRec(e)]
         /\ net = [e \in Endpoints |-> <<>>]
@@ -714,10 +721,6 @@ Inv_C09 == Props({"C09"})
 Inv_C11 == Props({"C11"})
 
 \* C03 / C06 on the pair, at quiescence
-Quiescent == /\ \A e \in Endpoints : Alive(E[e]) => (net[e] = <<>> \/ ~E[e].wsOpen)
-             /\ \A e \in Endpoints : E[e].pending = <<>> /\ ~E[e].tRun
-             /\ \A e \in Endpoints : E[e].ran
-             /\ \A e \in Endpoints : E[e].wsOpen \/ EosSent(e) \/ ~E[Peer(e)].wsOpen
 PairOb(e) == [st |-> E[e].st, wsOpen |-> E[e].wsOpen, nSetup |-> acc[e].nSetup, idOk |-> E[e].idOk, nClosed |-> acc[e].nClosed]
 TrustGiven == ~cancelled /\ \E e \in Endpoints : E[e].role = "server" /\ (Paired0[e] \/ Auto0[e] \/ approvedPending)
 IdsCompatible == \A e \in Endpoints : Stored0[e] = "none" \/ Stored0[e] = MyId[Peer(e)]
